@@ -78,7 +78,7 @@ def sk():
                 return np.zeros((len(sources),), dtype=[('dec', np.double)])
 
             def __call__(self, src_recarray, src_params_recarray):
-                return (self._t.copy(), {})
+                return ((self._t if getattr(self, 'alias', False) else self._t.copy()), {})
 
         class NoBuilder(DetSigYieldBuilder):
             def __init__(self, **kw):
@@ -97,7 +97,7 @@ def sk():
                 pass
 
             def get_ratio(self, tdm, src_params_recarray, tl=None):
-                return self._v.copy()
+                return self._v if getattr(self, 'alias', False) else self._v.copy()
 
             def get_gradient(self, tdm, src_params_recarray, fitparam_id, tl=None):
                 return 0
@@ -141,7 +141,7 @@ class Stack:
     re-weighted in place, the (stub) detector yields and trial data are replaced, and the public
     change_shg_mgr(...) path is called."""
 
-    def __init__(self, case):
+    def __init__(self, case, alias=False):
         S = sk()
         self.S = S
         self.case = case
@@ -161,6 +161,7 @@ class Stack:
         for j in range(J):
             for g in range(len(groups)):
                 self.arr[j, g] = S.TableYield(case['Y'][j][g])
+                self.arr[j, g].alias = alias
         svc = S.Mock(spec_set=['__class__', 'arr', 'shg_mgr', 'n_datasets', 'n_shgs'])
         svc.__class__ = S.DetSigYieldService
         svc.arr = self.arr
@@ -175,6 +176,7 @@ class Stack:
             for d in ds:
                 tdm = mk_tdm(S, d['N'], d['nsel'], d['vals'])
                 stub = S.StubRatio([v[2] for v in d['vals']], cfg=S.cfg)
+                stub.alias = alias
                 sw = S.SourceWeightedPDFRatio(
                     dataset_idx=d['didx'], src_detsigyield_weights_service=self.ws, pdfratio=stub, cfg=S.cfg)
                 self.tdms.append(tdm)
@@ -220,6 +222,7 @@ class Stack:
         # the public notification path
         if self.m is not None:
             self.m.change_shg_mgr(self.shg_mgr)
+            self.m.initialize_for_new_trial()
         else:
             self.ws.change_shg_mgr(self.shg_mgr)
 
@@ -933,6 +936,183 @@ def long_lived(ctx, case, opa, rng, lines, checks):
         hist.append({'case': c2, 'perm': p})
 
 
+# ----------------------------------------------------------------------------- history probes
+
+P_SINGLE = 'ZeroSigH0SingleDatasetTCLLHRatio.evaluate'
+P_CALC = 'SrcDetSigYieldWeightsService.calculate'
+
+
+def probe_partner(case, rng):
+    """a second, different configuration of the same shape (other weights, other dataset order, other ns)"""
+    c2 = strip_hist(case)
+    c2 = {k: v for k, v in c2.items() if k not in ('probe', 'other')}
+    if c2['J'] >= 2 and (c2.get('ds') is None or all(d['didx'] == j for j, d in enumerate(c2['ds']))):
+        q = list(range(c2['J']))
+        q = q[1:] + q[:1]
+        c2 = perm_datasets(c2, q)
+    c2 = dict(c2)
+    c2['groups'] = [[logu(rng, -1, 1) for _ in W] for W in c2['groups']]
+    if c2.get('ds') is not None:
+        c2['ns'] = 0.5 * case['ns'] + 0.01
+    return c2
+
+
+def probes(ctx, case, case2, opa):
+    """Generic history probes on the REAL objects (tools/HARDENING.md): repeat, interleave, two instances
+    built before first use and called alternately, arguments-are-inputs (every ndarray argument and every
+    stored input array snapshotted), returned-values-owned-by-the-caller.  Expected values come from
+    freshly built twins.  The stubs hand out their stored arrays themselves (no copy), so an in-place
+    operation on a yield / ratio array shows up in the snapshots."""
+    base = {k: v for k, v in case.items() if k not in ('probe', 'other')}
+    rep = dict(base, probe=True, other=case2)
+    fresh, fresh2 = run_impl(base), run_impl(case2)
+    if fresh['weights'][0] != 'Ok' or fresh2['weights'][0] != 'Ok':
+        return
+    has_multi = (base.get('ds') is not None and fresh['multi'] is not None and fresh['multi'][0] == 'Ok'
+                 and fresh2['multi'] is not None and fresh2['multi'][0] == 'Ok'
+                 and all(x is not None and x[0] == 'Ok' for x in fresh['stack'])
+                 and all(x is not None for x in fresh['single']))
+    st, st2 = Stack(base, alias=True), Stack(case2, alias=True)      # both built before first use
+    ctx.count('probes:' + ('multi' if has_multi else 'services'))
+
+    def viol(site, kind, detail, impl=None, model=None):
+        ctx.violation(site, kind, detail, case=rep, impl=impl, model=model,
+                      predicate='the result is a function of the current inputs only; arguments are inputs')
+
+    def stored(s):
+        out = [('yield', j, g, s.arr[j, g]._t) for j in range(s.arr.shape[0]) for g in range(s.arr.shape[1])]
+        out += [('R_ik', n, 0, x._v) for n, x in enumerate(s.stubs)]
+        out += [('src_idxs', n, 0, t.src_evt_idxs[0]) for n, t in enumerate(s.tdms)]
+        out += [('evt_idxs', n, 0, t.src_evt_idxs[1]) for n, t in enumerate(s.tdms)]
+        out.append(('weights', 0, 0, np.array([src.weight for src in s.shg_mgr.source_list], dtype=np.float64)))
+        return out
+
+    def snap(s):
+        return [(n, a, b, x.tobytes()) for (n, a, b, x) in stored(s)]
+
+    def check_stored(site, s, before):
+        for (n, a, b, x), (_, _, _, y) in zip(snap(s), before):
+            if x != y:
+                viol(site, 'modifies-stored-input:' + n, f'{n}[{a},{b}] was changed in place by the call')
+
+    def call(site, s, fn, args):
+        """args: dict name -> ndarray argument; returns fn()'s result"""
+        b_args = {k: v.tobytes() for k, v in args.items()}
+        b_st = snap(s)
+        r = fn()
+        for k, v in args.items():
+            if v.tobytes() != b_args[k]:
+                viol(site, 'modifies-argument:' + k, f'the caller\'s {k} was changed by the call')
+        check_stored(site, s, b_st)
+        return r
+
+    def same(x, y):
+        x, y = np.asarray(x, dtype=np.float64), np.asarray(y, dtype=np.float64)
+        return x.shape == y.shape and x.tobytes() == y.tobytes() or bool(np.array_equal(x, y, equal_nan=True))
+
+    with np.errstate(all='ignore'), warnings.catch_warnings():
+        warnings.simplefilter('ignore')
+        try:
+            fit = np.array([float(base.get('ns', 1.0))], dtype=np.float64)
+            fit2 = np.array([float(case2.get('ns', 1.0))], dtype=np.float64)
+            spr = st.pmm.create_src_params_recarray(fit)
+            spr2 = st2.pmm.create_src_params_recarray(fit2)
+            # ---- the weight services: repeat, alternate with the other instance, earlier results
+            call(P_CALC, st, lambda: st.ws.calculate(spr), {'src_params_recarray': spr})
+            st.fs.calculate()
+            a1, f1 = st.ws.get_weights()[0], st.fs.get_weights()[0]
+            a1c, f1c = a1.copy(), f1.copy()
+            if not (same(a1, fresh['weights'][1]) and same(f1, fresh['weights'][2])):
+                viol(P_CALC, 'differs-from-fresh-twin', 'first calculate differs from a freshly built service',
+                     impl=[a1.tolist(), f1.tolist()], model=fresh['weights'])
+            call(P_CALC, st2, lambda: st2.ws.calculate(spr2), {'src_params_recarray': spr2})
+            st2.fs.calculate()
+            if not (same(st2.ws.get_weights()[0], fresh2['weights'][1]) and same(st2.fs.get_weights()[0], fresh2['weights'][2])):
+                viol(P_CALC, 'second-instance-differs-from-fresh-twin', 'the second instance differs from its fresh twin',
+                     impl=[st2.ws.get_weights()[0].tolist()], model=fresh2['weights'])
+            call(P_CALC, st, lambda: st.ws.calculate(spr), {'src_params_recarray': spr})
+            st.fs.calculate()
+            if not (same(st.ws.get_weights()[0], a1c) and same(st.fs.get_weights()[0], f1c)):
+                viol(P_CALC, 'repeat-differs', 'calculate twice (another instance in between) gives different a_jk / f_j',
+                     impl=[st.ws.get_weights()[0].tolist(), st.fs.get_weights()[0].tolist()], model=[a1c.tolist(), f1c.tolist()])
+            if not (same(a1, a1c) and same(f1, f1c)):
+                viol(P_CALC, 'earlier-result-changed', 'the arrays returned by the first get_weights() changed afterwards')
+            if not has_multi:
+                return
+            # ---- stacked ratios: repeat, interleave the other datasets / the other instance
+            r_first = []
+            for n, (sw, tdm) in enumerate(zip(st.sws, st.tdms)):
+                r = call(P_SW, st, lambda: sw.get_ratio(tdm, spr), {'src_params_recarray': spr})
+                r_first.append((r, r.copy()))
+                if not same(r, fresh['stack'][n][1]):
+                    viol(P_SW, 'differs-from-fresh-twin', f'dataset {n}: long-lived objects differ from a fresh twin',
+                         impl=r.tolist(), model=fresh['stack'][n][1])
+            for sw, tdm in zip(st2.sws, st2.tdms):
+                call(P_SW, st2, lambda: sw.get_ratio(tdm, spr2), {'src_params_recarray': spr2})
+            for n, (sw, tdm) in enumerate(zip(st.sws, st.tdms)):
+                r = call(P_SW, st, lambda: sw.get_ratio(tdm, spr), {'src_params_recarray': spr})
+                (r0, r0c) = r_first[n]
+                if not same(r, r0c):
+                    viol(P_SW, 'repeat-differs', f'dataset {n}: get_ratio twice gives different ratios', impl=r.tolist(), model=r0c.tolist())
+                if not same(r0, r0c):
+                    viol(P_SW, 'earlier-result-changed', f'dataset {n}: the array returned by the first call changed afterwards')
+                if r is not r0 and np.shares_memory(r, r0) and r.size:
+                    viol(P_SW, 'results-share-memory', f'dataset {n}: results of two calls share memory')
+            # ---- multi-dataset value: the caller's float64 array is handed over again and again
+            want, want2 = fresh['multi'][1], fresh2['multi'][1]
+            (v1, g1) = call(P_MULTI, st, lambda: st.m.evaluate(fit), {'fitparam_values': fit})
+            g1c = np.array(g1, copy=True)
+            if not same(v1, want):
+                viol(P_MULTI, 'differs-from-fresh-twin', f'first evaluate {float(v1)!r}, fresh twin {want!r}', impl=float(v1), model=want)
+            (w1, h1) = call(P_MULTI, st2, lambda: st2.m.evaluate(fit2), {'fitparam_values': fit2})
+            if not same(w1, want2):
+                viol(P_MULTI, 'second-instance-differs-from-fresh-twin', f'{float(w1)!r} vs fresh twin {want2!r}', impl=float(w1), model=want2)
+            (v2, g2) = call(P_MULTI, st, lambda: st.m.evaluate(fit), {'fitparam_values': fit})
+            if not (same(v2, v1) and same(g2, g1c)):
+                viol(P_MULTI, 'repeat-differs', f'evaluate twice with the same fitparam_values array: {float(v1)!r} then {float(v2)!r}',
+                     impl=float(v2), model=float(v1))
+            if not same(g1, g1c):
+                viol(P_MULTI, 'earlier-result-changed', 'the gradient array returned by the first evaluate changed afterwards')
+            if g2 is not g1 and np.shares_memory(g1, g2):
+                viol(P_MULTI, 'results-share-memory', 'gradient arrays of two evaluate calls share memory')
+            # same array handed to the other llh ratio function, then back
+            (w2, _) = call(P_MULTI, st2, lambda: st2.m.evaluate(fit2), {'fitparam_values': fit2})
+            if not same(w2, w1):
+                viol(P_MULTI, 'repeat-differs', f'second instance: {float(w1)!r} then {float(w2)!r}', impl=float(w2), model=float(w1))
+            # ---- single-dataset functions with the caller's arrays, additivity for the caller's ns
+            f = st.fs.get_weights()[0]
+            singles = []
+            for n, ll in enumerate(st.lls):
+                fj = np.array([fit[0] * f[n]], dtype=np.float64)
+                (x1, _) = call(P_SINGLE, st, lambda: ll.evaluate(fj, src_params_recarray=spr),
+                               {'fitparam_values': fj, 'src_params_recarray': spr})
+                (x2, _) = call(P_SINGLE, st, lambda: ll.evaluate(fj, src_params_recarray=spr),
+                               {'fitparam_values': fj, 'src_params_recarray': spr})
+                if not same(x1, x2):
+                    viol(P_SINGLE, 'repeat-differs', f'dataset {n}: {float(x1)!r} then {float(x2)!r}', impl=float(x2), model=float(x1))
+                if not same(x1, fresh['single'][n]):
+                    viol(P_SINGLE, 'differs-from-fresh-twin', f'dataset {n}: {float(x1)!r} vs {fresh["single"][n]!r}',
+                         impl=float(x1), model=fresh['single'][n])
+                singles.append(float(x1))
+            # ---- interleave: other ns, second derivative, other instance; then the first call again
+            other = np.array([0.37 * fit[0] + 0.003], dtype=np.float64)
+            call(P_MULTI, st, lambda: st.m.evaluate(other), {'fitparam_values': other})
+            try:
+                st.m.calculate_ns_grad2(ns=other[0], ns_pidx=0, src_params_recarray=spr)
+            except Exception:   # noqa: BLE001  (not an observable of this property)
+                ctx.count('probes:ns_grad2-raised')
+            call(P_MULTI, st2, lambda: st2.m.evaluate(fit2), {'fitparam_values': fit2})
+            (v3, g3) = call(P_MULTI, st, lambda: st.m.evaluate(fit), {'fitparam_values': fit})
+            if not (same(v3, v1) and same(g3, g1c)):
+                viol(P_MULTI, 'interleave-differs', f'evaluate after other calls: {float(v1)!r} then {float(v3)!r}', impl=float(v3), model=float(v1))
+            orc = value_oracle(base, opa)
+            if orc is not None and not close(float(v3), math.fsum(singles), 1e-12 * (orc[1] + 1.0)):
+                viol(P_MULTI, 'not-additive-for-callers-ns', f'value {float(v3)!r}, sum_j llh_j(ns f_j) = {math.fsum(singles)!r}',
+                     impl=float(v3), model=math.fsum(singles))
+        except (ValueError, IndexError, TypeError, KeyError, AssertionError) as ex:
+            viol('history-probes', 'raises-' + exc_name(ex), f'a probe sequence raises: {ex}')
+
+
 # ----------------------------------------------------------------------------- correspondence
 
 def queue_model(case, impl, opa, lines, checks):
@@ -1011,6 +1191,10 @@ def corpus_cases():
 def process(ctx, cases, opa, meta_budget, rng, exe):
     lines, checks = [], []
     for c in cases:
+        if c.get('probe'):
+            ctx.case(c, nontrivial=True)
+            probes(ctx, c, c['other'], opa)
+            continue
         ctx.case(c, nontrivial=in_guard(c))
         impl = run_history(c) if c.get('history') else run_impl(c)
         queue_model(c, impl, opa, lines, checks)
@@ -1025,6 +1209,8 @@ def process(ctx, cases, opa, meta_budget, rng, exe):
             metamorphic(ctx, c, impl, opa, ns_, nd_, rng)
         if not c.get('malformed'):
             long_lived(ctx, c, opa, rng, lines, checks)
+            if in_guard(c):
+                probes(ctx, c, probe_partner(c, rng), opa)
     if exe is not None and ctx.model_ok:
         try:
             outs = common.ocaml_run(exe, lines)
